@@ -156,3 +156,68 @@ def normaliser_functions(repo, modname="molgri.space.utils"):
                 if "norm" in dtxt and ps[0] in dtxt:
                     out.add(name)
     return out
+
+
+def local_defs_with_unpack(stmts, exclude=()):
+    """single_defs plus tuple-unpacking definitions:  a, b = E   gives  a := E[0], b := E[1]"""
+    defs = Canon.single_defs(stmts, exclude=exclude)
+    counts = {}
+    for st in stmts:
+        for n in ast.walk(st):
+            if isinstance(n, ast.Name) and isinstance(n.ctx, ast.Store):
+                counts[n.id] = counts.get(n.id, 0) + 1
+    for st in stmts:
+        for n in ast.walk(st):
+            if isinstance(n, ast.Assign) and len(n.targets) == 1 and isinstance(n.targets[0], (ast.Tuple, ast.List)) and \
+                    not isinstance(n.value, (ast.Tuple, ast.List)):
+                for k, t in enumerate(n.targets[0].elts):
+                    if isinstance(t, ast.Name) and counts.get(t.id) == 1 and t.id not in exclude:
+                        defs[t.id] = ast.Subscript(value=n.value, slice=ast.Constant(value=k), ctx=ast.Load())
+    return defs
+
+
+def inline_helpers(repo, module, expr, depth=0, skip=()):
+    """replace calls of small repository helpers (body = simple assignments + one return) by their returned expression with the
+    parameters substituted by the arguments and local names expanded — so that a rule sees through `extract function` refactorings"""
+    if depth > 3:
+        return expr
+
+    class Tr(ast.NodeTransformer):
+        def visit_Call(self, node):
+            self.generic_visit(node)
+            if not isinstance(node.func, ast.Name) or node.func.id in skip:
+                return node
+            try:
+                r = repo.resolve_name(module, node.func.id)
+            except Exception:
+                r = None
+            if not (r and r[0] == "func" and r[1].cls is None):
+                return node
+            fn = r[1].node
+            body = [s_ for s_ in fn.body if not (isinstance(s_, ast.Expr) and isinstance(s_.value, ast.Constant))]
+            body = [s_ for s_ in body if not isinstance(s_, (ast.Assert, ast.Pass))]
+            if not body or not isinstance(body[-1], ast.Return) or body[-1].value is None or len(body) > 6:
+                return node
+            if not all(isinstance(s_, ast.Assign) for s_ in body[:-1]):
+                return node
+            if any(isinstance(a, ast.Starred) for a in node.args) or fn.args.vararg or fn.args.kwarg:
+                return node
+            params = [a.arg for a in fn.args.posonlyargs + fn.args.args]
+            binding = {}
+            for k, a in enumerate(node.args):
+                if k < len(params):
+                    binding[params[k]] = a
+            for kw in node.keywords:
+                if kw.arg:
+                    binding[kw.arg] = kw.value
+            pos = fn.args.posonlyargs + fn.args.args
+            for a, d in zip(pos[len(pos) - len(fn.args.defaults):], fn.args.defaults):
+                binding.setdefault(a.arg, d)
+            if any(p_ not in binding for p_ in params):
+                return node
+            defs = local_defs_with_unpack(body[:-1])
+            defs.update(binding)
+            out = Canon(defs).expand(body[-1].value)
+            return inline_helpers(repo, r[1].module, out, depth + 1, skip)
+    import copy as _copy
+    return Tr().visit(_copy.deepcopy(expr))
